@@ -4,7 +4,7 @@
    Proofs: Fold.v, CaseInsens.v, Anti.v, Total.v. *)
 From Coq Require Import List NArith Bool.
 Import ListNotations.
-Require Import Base.Wire Base.PyStr C03.Model C03.Fold C03.CaseInsens C03.Anti C03.Total.
+Require Import Base.Wire Base.PyStr C03.Model C03.Fold C03.CaseInsens C03.Anti C03.Total C03.Reach.
 
 (* No exception escapes for a well-formed capability (non-empty, no
    whitespace), whatever the database and the three ignore* flags. *)
@@ -66,3 +66,18 @@ Proof.
   intros d u c f Hu Hs Hh. unfold checkCapability. rewrite Hu, Hs, Hh. reflexivity.
 Qed.
 Print Assumptions C03_secure_mismatch_is_unknown.
+
+(* The hypothesis db_ok of C03_anti_opposite is what CapabilitySet.add
+   maintains: every set built from the empty set by adds of capabilities on
+   which invertCapability is an involution (all of dom_cap and their
+   anti-capabilities) holds no element next to its own inverse. *)
+Theorem C03_add_maintains_set_ok :
+  forall S c S', sets_ok S = true -> invol (fold c) = true -> cs_add S c = Ok S' -> sets_ok S' = true.
+Proof. exact cs_add_preserves. Qed.
+Print Assumptions C03_add_maintains_set_ok.
+
+Theorem C03_built_sets_ok :
+  forall cs, forallb (fun c => invol (fold c)) cs = true ->
+  forall S, fold_left (fun r c => do acc <- r; cs_add acc c) cs (Ok []) = Ok S -> sets_ok S = true.
+Proof. exact built_sets_ok. Qed.
+Print Assumptions C03_built_sets_ok.
